@@ -30,6 +30,7 @@ fn impl_neighbours(depth: u8, h: u64, center: bool) -> Result<Vec<(usize, u64)>,
 
 /// Full check of one cell.
 pub fn check_cell(depth: u8, h: u64, symmetry: bool, part: &mut Part) -> Option<Viol> {
+  journal("nested::neighbours", || case_json(depth, h));
   let expected = ref_neighbours(depth, h);
   let got = match impl_neighbours(depth, h, false) {
     Ok(v) => v,
